@@ -1091,6 +1091,21 @@ func runCase(c *c15Case) (encoded []byte) {
 			if c.Observed.Same {
 				keep(keptDecode{obsV: &v, obsD: &d})
 			}
+			// what a decode returns belongs to its caller, and the answer depends on the arguments alone: a caller
+			// that writes into its result, or one that decodes with another work-id generator, changes nothing
+			// about the next decode of the same bytes
+			if d2, err2 := ocr2keepers.DecodeAutomationObservation(b, simutil.GetUpkeepType, wg); err2 == nil {
+				scribbleObs(&d2)
+			}
+			_, errO := ocr2keepers.DecodeAutomationObservation(b, simutil.GetUpkeepType, wgFor(c.WidPrefix+"zz"))
+			if errO == nil && len(v.Performable)+len(v.UpkeepProposals) > 0 {
+				c.Observed.Code, c.Observed.Same = 96, false
+				c.Observed.ErrText = "accepted with another work-id generator, under which every work id is wrong"
+			}
+			if d3, err3 := ocr2keepers.DecodeAutomationObservation(b, simutil.GetUpkeepType, wg); c.Observed.Same && (err3 != nil || !eqObs(v, d3)) {
+				c.Observed.Same = false
+				c.Observed.ErrText = fmt.Sprint("decoding the same bytes again, after the earlier result was written to, gave another value: ", err3)
+			}
 		}
 		if c.WidPrefix == "" { // the plug-in is built with the standard work-id generator
 			if ok, why := validatorAgrees(b, err); !ok {
@@ -1123,12 +1138,72 @@ func runCase(c *c15Case) (encoded []byte) {
 			if c.Observed.Same {
 				keep(keptDecode{outV: &v, outD: &d})
 			}
+			if d2, err2 := ocr2keepers.DecodeAutomationOutcome(b, simutil.GetUpkeepType, wg); err2 == nil {
+				scribbleOut(&d2)
+			}
+			items := len(v.AgreedPerformables)
+			for _, sp := range v.SurfacedProposals {
+				items += len(sp)
+			}
+			_, errO := ocr2keepers.DecodeAutomationOutcome(b, simutil.GetUpkeepType, wgFor(c.WidPrefix+"zz"))
+			if errO == nil && items > 0 {
+				c.Observed.Code, c.Observed.Same = 96, false
+				c.Observed.ErrText = "accepted with another work-id generator, under which every work id is wrong"
+			}
+			if d3, err3 := ocr2keepers.DecodeAutomationOutcome(b, simutil.GetUpkeepType, wg); c.Observed.Same && (err3 != nil || !eqOut(v, d3)) {
+				c.Observed.Same = false
+				c.Observed.ErrText = fmt.Sprint("decoding the same bytes again, after the earlier result was written to, gave another value: ", err3)
+			}
 		}
 	}
 	if c.Level == "wire" {
 		c.Observed.Bytes = hex.EncodeToString(encoded)
 	}
 	return encoded
+}
+
+// scribbleObs / scribbleOut write into everything a decoded value points to, as a caller that owns it may
+func scribbleRes(r *common.CheckResult) {
+	r.GasAllocated, r.Eligible, r.WorkID = 0, false, ""
+	for i := range r.PerformData {
+		r.PerformData[i] ^= 0xff
+	}
+	if r.FastGasWei != nil {
+		r.FastGasWei.SetInt64(-1)
+	}
+	if r.LinkNative != nil {
+		r.LinkNative.SetInt64(-1)
+	}
+	if r.Trigger.LogTriggerExtension != nil {
+		r.Trigger.LogTriggerExtension.Index++
+	}
+}
+func scribbleProp(p *common.CoordinatedBlockProposal) {
+	p.WorkID = ""
+	if p.Trigger.LogTriggerExtension != nil {
+		p.Trigger.LogTriggerExtension.Index++
+	}
+}
+func scribbleObs(o *ocr2keepers.AutomationObservation) {
+	for i := range o.Performable {
+		scribbleRes(&o.Performable[i])
+	}
+	for i := range o.UpkeepProposals {
+		scribbleProp(&o.UpkeepProposals[i])
+	}
+	for i := range o.BlockHistory {
+		o.BlockHistory[i].Number++
+	}
+}
+func scribbleOut(o *ocr2keepers.AutomationOutcome) {
+	for i := range o.AgreedPerformables {
+		scribbleRes(&o.AgreedPerformables[i])
+	}
+	for i := range o.SurfacedProposals {
+		for j := range o.SurfacedProposals[i] {
+			scribbleProp(&o.SurfacedProposals[i][j])
+		}
+	}
 }
 
 // ---------------------------------------------------------------- Gallina emission
